@@ -76,9 +76,16 @@ def write_coqproject():
 
 def regenerate_all():
     """Run every Tie A generator.  Returns {name: error or None}."""
-    from tools.py2coq import GENERATORS
+    gens = {}
+    try:
+        m = json.load(open(os.path.join(ROOT, 'MANIFEST.json')))
+        for c in m.get('checks', []):
+            P = importlib.import_module('tools.props.%s' % c['property_id'].lower())
+            gens.update(getattr(P, 'GENERATORS', {}))
+    except (OSError, ValueError, ImportError) as e:
+        print('regenerate: cannot read the registered checks: %s' % e)
     res = {}
-    for name, mod in GENERATORS.items():
+    for name, mod in sorted(gens.items()):
         res[name] = regenerate(mod, name)
     return res
 
@@ -300,7 +307,13 @@ def load_findings(prop):
     if not os.path.exists(p):
         return []
     data = json.load(open(p))
-    return [f for f in data.get('findings', []) if f.get('property') == prop]
+    out = [f for f in data.get('findings', []) if f.get('property') == prop]
+    # per-property files written while a check is being built (merged into KNOWN_FINDINGS.json on integration)
+    q = os.path.join(ROOT, 'findings', prop + '.json')
+    if os.path.exists(q):
+        ids = {f['id'] for f in out}
+        out += [f for f in json.load(open(q)).get('findings', []) if f.get('property') == prop and f['id'] not in ids]
+    return out
 
 
 def fingerprint(paths):
@@ -324,12 +337,27 @@ def write_json(path, obj):
     os.replace(tmp, path)
 
 
+def registered_targets():
+    """the .vo targets of every check registered in MANIFEST.json"""
+    targets = []
+    try:
+        m = json.load(open(os.path.join(ROOT, 'MANIFEST.json')))
+        for c in m.get('checks', []):
+            P = importlib.import_module('tools.props.%s' % c['property_id'].lower())
+            targets += [P.CORR_VO, P.PROPS_VO]
+    except (OSError, ValueError, ImportError) as e:
+        print('setup: cannot read the registered checks (%s); building everything' % e)
+        return ['all']
+    return targets or ['all']
+
+
 def setup():
     t0 = time.time()
+    os.makedirs(os.path.join(ROOT, 'evidence'), exist_ok=True)
     with Lock():
         regen = regenerate_all()
         write_coqproject()
-        ok, out = make(['all'], timeout=3000)
+        ok, out = make(registered_targets(), timeout=3000)
     print('regenerate:', {k: (v or 'ok') for k, v in regen.items()})
     if not ok:
         print(out[-4000:])
